@@ -59,6 +59,8 @@ def gen_body(rng, nops, allow_r_inside, burst):
         elif c < 7 and depth < 2:
             out.append("L")
             depth += 1
+            if burst and rng.chance(1, 2):      # hold the region across several polls of the collector (1 ms+ back-off)
+                out.append("Z%d" % rng.choice([1500, 4000]))
         elif depth > 0:
             out.append("U")
             depth -= 1
@@ -136,6 +138,9 @@ DIRECTED = [
     ("d.batch", 2048, "B,W,S|Z100,R1100|Z100,R1100|L,Z60000,U", 1000),   # more than one batch of 1024 queued behind the collector
     ("d.nostart", 4, "R,R,B,R,S|L,U", 50),
     ("d.race", 8, "B,R,S|R,R,R", 50),
+    # ticket order != epoch order under a long region: the reclaimable prefix must stop at the first task that is not ready
+    ("d.order", 8, "B,R,R,W,S|R,R|L,Z5000,U,L,Z5000,U", 50),
+    ("d.order2", 4, "R,B,W,S|R|L,Z5000,U", 50),
 ]
 
 
@@ -157,7 +162,7 @@ def main(argv):
         scheds = {"r0": [(r["seed"], r["strategy"], r["step_ns"])]}
     else:
         seen = set()
-        n_small, n_big = (24, 60) if not thorough else (110, 500)
+        n_small, n_big = (36, 90) if not thorough else (110, 600)
         for bits, p in AIMED:
             seen.add((bits, p))
             progs.append(("s%d" % len(progs), 1 << bits, p, True))
@@ -175,7 +180,7 @@ def main(argv):
                 cnt += 1
         for name, mc, p, _ in DIRECTED:
             progs.append((name, mc, p, False))
-        nsched = 24 if not thorough else 100
+        nsched = 28 if not thorough else 100
         # PCT never pre-empts a spinning thread: only with a step far below the 200 us / 1 ms polling sleeps (else unfair for ever)
         base = [(rng.below(1 << 31), [0, 3, 1, 0][i % 4], 50 if i % 4 == 2 else [50, 20000, 200000, 1000000, 50, 5000][i % 6])
                 for i in range(nsched)]
@@ -183,7 +188,12 @@ def main(argv):
         for pid, mc, p, small in progs:
             if pid.startswith("d."):
                 sn = [d[3] for d in DIRECTED if d[0] == pid][0]
-                scheds[pid] = [(1, 3, sn), (2, 0, sn)] if pid == "d.batch" else [(s, st, sn) for s, st, _ in base[:6]]
+                if pid == "d.batch":
+                    scheds[pid] = [(1, 3, sn), (2, 0, sn)]
+                elif pid.startswith("d.order"):
+                    scheds[pid] = [(rng.below(1 << 31), [0, 3][i % 2], sn) for i in range(70 if not thorough else 300)]
+                else:
+                    scheds[pid] = [(s, st, sn) for s, st, _ in base[:6]]
             else:
                 scheds[pid] = base if small else base[:10 if not thorough else 40]
     lines = []
@@ -212,7 +222,8 @@ def main(argv):
     chk.log("model exploration done (%d states)" % states)
     MON = {"once": ("called-twice", "a reclaimer was called more than once"),
            "notearly": ("called-early", "a reclaimer was called while a region that was open when it was retired is still open"),
-           "stopall": ("stop-returns-with-uncalled-reclaimers", "stop() returned although a reclaimer retired before stop() began has not been called"),
+           "stopall": ("stop-returns-with-uncalled-reclaimers", "stop() returned although a reclaimer retired before stop() began has not been called (a region entered before that retire() was open during stop())"),
+           "stopallnr": ("stop-returns-with-uncalled-reclaimers-no-region", "stop() returned although a reclaimer retired before stop() began has not been called, and no region entered before that retire() was open during stop()"),
            "racing": ("retire-overlapping-stop-dropped", "a reclaimer whose retire() overlapped stop() was never called (dropped behind the stop marker)"),
            "fifo": ("calls-out-of-order", "reclaimers of one thread were called out of retirement order"),
            "qbound": ("push-beyond-capacity", "retire() returned although the queue already held capacity unpopped tasks"),
